@@ -17,6 +17,7 @@ OP = 0
 LO = 0
 HI = 1
 MAXLEAVES = 3
+YMAX_EVERY = 1  # yields are explored for every n-th case only (quick tier)
 YMAX = 0
 CALLBACKS = ("and_composition", "or_composition", "xor_composition")
 _CASES = {}
@@ -124,8 +125,34 @@ def cases():
     for rep in ("[901]X[901]", "[901]U[901]", "[901]O[901]", "[902]U([901]X[901])", "([901]X[901])O[902]", "[901]U[901]O[902]", "[902]O[902]X[901]", "([901]U[902])X([901]U[903])"):
         out.append((rep, tuple(sorted(set(__import__("re").findall(r"\[(\d+)\]", rep))))))
     out.append(("([901] ∧ [902]) ⊻ ([901] ∨ [903])", ("901", "902", "903")))
+    # unbracketed expressions that MIX the letter and the symbol spellings (precedence must not depend on the spelling)
+    for mix in ("[901] ∨ [902] U [903]", "[901] X [902] ∨ [903]", "[901] u [902] ⊻ [903]", "[901] ∧ [902] O [903]", "[901] ⊻ [902] U [903] ∨ [904]", "[901] O [902] ∧ [903] X [904]"):
+        ks = tuple(sorted(set(__import__("re").findall(r"\[(\d+)\]", mix))))
+        out.append((mix, ks))
     _CASES[MAXLEAVES] = out
     return out
+
+
+def doc_bool(text: str, sigma) -> bool:
+    """Boolean value by the DOCUMENTED precedence: independent precedence-climbing parser (vf.props.C01) + fold"""
+    from vf.props import C01
+
+    def ev(n):
+        if n[0] == "k":
+            return sigma[n[1].strip("[]")]
+        vals = [ev(c) for c in n[1]]
+        if n[0] == "and":
+            return all(vals)
+        if n[0] == "or":
+            return any(vals)
+        if n[0] == "xor":
+            acc = vals[0]
+            for v in vals[1:]:
+                acc = acc != v
+            return acc
+        raise xs.HarnessError(f"node {n[0]} in a format-constraint expression")
+
+    return ev(C01.ref_parse(C01.tokenize(text)))
 
 
 def fc_glue(idx: int, f0: bool, f1: bool, f2: bool, f3: bool, y: int, nomsg: bool) -> bool:
@@ -140,7 +167,10 @@ def fc_glue(idx: int, f0: bool, f1: bool, f2: bool, f3: bool, y: int, nomsg: boo
         tree = env.real_parser("condition").parse(text)
     fb = [f0, f1, f2, f3]
     sigma = {k: fb[i] for i, k in enumerate(keys)}
-    yc = {keys[0]: y} if keys else {}
+    if y and (nomsg or len(keys) < 3 or (YMAX_EVERY > 1 and idx % YMAX_EVERY)):
+        return True  # yields only matter for several suspending evaluation methods
+    # completion order = reverse of the request order for the first three keys
+    yc = {k: (2 - i) * y for i, k in enumerate(keys[:3])} if keys else {}
     if nomsg:
         # evaluated single constraints WITHOUT error messages (as DictBased/ContentEvaluationResult-based evaluators may
         # deliver them): only the Boolean value is claimed then
@@ -162,7 +192,11 @@ def fc_glue(idx: int, f0: bool, f1: bool, f2: bool, f3: bool, y: int, nomsg: boo
         return xs.fail(f"format_constraint_evaluation('{text}') raised {type(e).__name__}: {e}", idx=idx, f0=f0, f1=f1, f2=f2, f3=f3, y=y, nomsg=nomsg)
     xs.reached()
     want = refsem.fc_bool(tree, sigma)
+    with xs.nt():
+        want_doc = doc_bool(text, {k: bool(xs.R(v)) for k, v in sigma.items()})
     got = res.format_constraints_fulfilled
+    if bool(want) != bool(want_doc):
+        want = want_doc  # the parser grouped the expression against the documented precedence: judge by the documented one
     if bool(got) != bool(want):
         return xs.fail(f"format_constraint_evaluation('{text}') = {got} under {sigma}; Boolean value with the documented precedence is {want}", idx=idx, f0=f0, f1=f1, f2=f2, f3=f3, y=y, nomsg=nomsg)
     if not nomsg and (res.error_message is None) != bool(got):
